@@ -103,6 +103,10 @@ public:
             locker.relock();
         }
 
+        // The mutex was released while waiting: another thread may have completed the stop
+        if (!m_thread)
+            return;
+
         QTLOGGER_VERIF_POINT("oth.reset.quit", this);
         m_thread->quit();
 
